@@ -24,7 +24,7 @@ RULE = (
     "pair; distinct = (operation, parameters, input hash, seed); non-trivial = the operation returned in both runs"
 )
 ASSUMPTIONS = ["thorough tier repeats the CLI steps as real subprocesses under two PYTHONHASHSEED values", "line-granular injection uses sys.monitoring LINE events on code objects whose file lies under the tree under test"]
-REQUIRED = {"pairs_compared": {"quick": 400, "thorough": 8000}, "global_state_checks": {"quick": 400, "thorough": 8000}, "injected_global_draws": {"quick": 2000, "thorough": 50000}, "training_pairs": {"quick": 16, "thorough": 300}, "cli_pairs": {"quick": 24, "thorough": 400}}
+REQUIRED = {"pairs_compared": {"quick": 400, "thorough": 8000}, "global_state_checks": {"quick": 400, "thorough": 8000}, "injected_global_draws": {"quick": 2000, "thorough": 50000}, "training_pairs": {"quick": 16, "thorough": 300}, "cli_pairs": {"quick": 24, "thorough": 400}, "cli_subprocess_pairs": {"quick": 2, "thorough": 16}}
 N_OPS = {"quick": 640, "thorough": 12800}
 TOOL = 4
 
@@ -237,6 +237,9 @@ def run_shard(rec, tier, seed, shard, nshards):
     cli_pairs(rec, tier, rng)
     if tier == "thorough" and shard < 4:
         cli_subprocess_pairs(rec, rng, shard)
+    elif tier == "quick" and shard < 2:
+        # iteration order of sets / dicts of strings is a hidden input that only differs between processes
+        cli_subprocess_pairs(rec, rng, shard, only=("prepare_retrospective_simulation",))
 
 
 def h5_fingerprint(path):
@@ -317,18 +320,21 @@ def cli_pairs(rec, tier, rng):
                 pair(rec, "cli-" + name, "--seed %d" % sd, run, lambda outs: [file_fp(p) for p in outs], w, inj_every=211, case_key=("cli", name, sd, ci), count_as="cli_pairs")
 
 
-def cli_subprocess_pairs(rec, rng, shard):
+def cli_subprocess_pairs(rec, rng, shard, only=None):
     """fresh interpreters, two PYTHONHASHSEED values (set/dict iteration order as a hidden input)"""
     with kit.scratch_dir("vf-c18s-") as tmp:
         full = make_cli_inputs(rng, tmp)
         sd = int(rng.integers(0, 100000))
         stepsA = cli_steps(tmp, "A", sd, full)
         for name, argvA, outsA in stepsA:
+            if only is not None and name not in only:
+                continue
             outsB = [p.replace(os.path.join(tmp, "A_"), os.path.join(tmp, "B_")) for p in outsA]
             argvB = [outsB[outsA.index(a)] if a in outsA else a for a in argvA]
             fps = []
             ok = True
-            for argv, outs, hs in ((argvA, outsA, "1"), (argvB, outsB, "77")):
+            hs_pair = ("1", "77") if shard % 2 == 0 else ("3", "1234")
+            for argv, outs, hs in ((argvA, outsA, hs_pair[0]), (argvB, outsB, hs_pair[1])):
                 env = dict(os.environ)
                 env["PYTHONHASHSEED"] = hs
                 env["PYTHONPATH"] = os.path.join(repoimport.REPO, "src")
@@ -348,4 +354,4 @@ def cli_subprocess_pairs(rec, rng, shard):
             rec.case(("cli-subprocess", name, sd, shard))
             rec.count("pairs_compared")
             rec.count("cli_subprocess_pairs")
-            rec.check(fps[0] == fps[1], "C18/cli-%s/nondeterministic" % name, "%s --seed %d: two fresh processes (PYTHONHASHSEED 1 and 77) wrote different output" % (name, sd), {"cli": name, "seed": sd, "via": "subprocess"})
+            rec.check(fps[0] == fps[1], "C18/cli-%s/nondeterministic" % name, "%s --seed %d: two fresh processes (PYTHONHASHSEED %s and %s) wrote different output" % (name, sd, hs_pair[0], hs_pair[1]), {"cli": name, "seed": sd, "via": "subprocess"})
